@@ -122,6 +122,8 @@ def pipeline_dict(G, nest=False):
             {"id": "st0", "type": "set_state", "key": "z", "val": ""},
             # a number
             {"id": "stn", "type": "set_state", "key": "n", "val": 5},
+            # the key the rule marker sets has a value already: the marker (inside the nest as well) OVERWRITES it
+            {"id": "stpre", "type": "set_state", "key": "mark", "val": "0"},
         ] + ([{"id": "wrap", "type": "nest", "items": [rulemark, marker]}] if nest else [rulemark, marker]),
     }
 
@@ -195,7 +197,7 @@ def run(tier: str, seed: int) -> int:
     from .. import corrupt as _corrupt
 
     chk.binding_selftest("Judge_C13", obs, verdicts, _corrupt.c13)
-    by_id = {o["id"]: {"marker_item": dict(pipeline_dict(o["G"])["transformations"][9], inside_nest=bool(o.get("nest"))), "observed": o["ret"]["out"] if o["ret"]["ok"] else o["ret"]["exc"] + ": " + uncps(o["ret"]["msg"])} for o in obs}
+    by_id = {o["id"]: {"marker_item": dict(pipeline_dict(o["G"])["transformations"][10], inside_nest=bool(o.get("nest"))), "observed": o["ret"]["out"] if o["ret"]["ok"] else o["ret"]["exc"] + ": " + uncps(o["ret"]["msg"])} for o in obs}
     chk.absorb(verdicts, by_id, {c["id"]: c for c in cases})
     nontrivial = sum(1 for c in cases if sum(len(c["G"][k]["conds"]) for k in ("rule", "item", "field")) >= 1)
     samples = [by_id[o["id"]] for o in obs[:: max(1, len(obs) // 4)]][:4]
